@@ -169,7 +169,7 @@ def parse_lines(text, reg):
                 out.append([prefix, 'target', None])
         else:
             hits = [sid for sid, rp in reprs.items() if rp == value or (core != value and rp.startswith(core))]
-            out.append([prefix, 'spec', hits[0] if len(hits) == 1 else -1])
+            out.append([prefix, 'spec', hits[0] if len(hits) == 1 else None])   # None: the text does not name one occurrence; the tree does
     return out
 
 
@@ -264,7 +264,25 @@ def message_cases():
         ('cyclic-list', cl, 'zz'),
         ('deep-list', deep, 'zz'),
         ('cyclic-in-chain', {'c': cyc}, ('c', 'self', 'self', 'zz')),
+        # a callable that runs a nested glom, logs (stringifies) its error and lets it propagate
+        ('nested-logged', {'a': {'x': {}}}, ('a', _logging_nested)),
+        ('nested-plain', {'a': {'x': {}}}, ('a', _plain_nested)),
     ]
+
+
+def _logging_nested(t):
+    import glom
+    try:
+        return glom.glom(t, 'x.y')
+    except glom.GlomError as e:
+        str(e)
+        raise
+
+
+def _plain_nested(t):
+    import glom
+    return glom.glom(t, 'x.y')
+
 
 
 def run_message(case):
@@ -283,6 +301,14 @@ def run_message(case):
         tl = text.split('\n')
         out['has_trace'] = len(tl) > 2 and tl[1] == ' Target-spec trace (most recent last):'
         out['first_is_target'] = len(tl) > 2 and tl[2].startswith(' - Target: ')
+        try:
+            from glom.core import bbrepr
+            root = bbrepr(target).replace("\\'", "'")
+            shown = tl[2][len(' - Target: '):] if len(tl) > 2 else ''
+            core = re.sub(r'\.\.\.( \(len=\d+\))?$', '', shown)
+            out['first_is_root'] = (shown == root) or (core != shown and root.startswith(core))
+        except Exception:
+            out['first_is_root'] = True
         orig = getattr(e, '_GlomError__wrapped', e)
         try:
             ol = ''.join(traceback.format_exception_only(type(orig), orig)).strip().split('\n')[-1]
@@ -312,7 +338,7 @@ def corpus():
         {'kind': 'trace', 'tree': ['nest', 1, [['switch', 2, [[['leaf', 3, False], ['leaf', 4, True]], [['leaf', 5, True], ['leaf', 6, False]]]]]]},
         {'kind': 'trace', 'tree': ['alt', 1, [['alt', 2, [['leaf', 3, False]]], ['or', 4, [['leaf', 5, False], ['leaf', 6, False]]]]]},
     ]
-    out += [{'kind': 'message', 'i': i} for i in range(22)]
+    out += [{'kind': 'message', 'i': i} for i in range(24)]
     return out
 
 
@@ -386,7 +412,7 @@ def direct_oracle(case, out):
             return 'the planted failure %s did not raise' % out['name']
         if out.get('str_failed'):
             return 'str() of the %s raised for %s fails with %s' % (out['cls'], out['name'], out['str_failed'])
-        if not out['has_trace'] or not out['first_is_target']:
+        if not out['has_trace'] or not out['first_is_target'] or not out.get('first_is_root', True):
             return 'no target-spec trace beginning with the root target (%s)' % out['name']
         if not out['last_ok']:
             return 'the message does not end with the original error (%s): %r' % (out['name'], out['last'])
